@@ -25,8 +25,8 @@ def addr_str(a, prog=None):
         s = "local#%s" % (r[2] if len(r) > 2 and r[2] else r[1])
     elif r[0] == "global":
         s = "@" + r[1]
-    elif r[0] == "heap":
-        s = "heap#%d" % r[1]
+    elif r[0] in ("heap", "heapi"):
+        s = "%s#%s" % (r[0], r[1])
     else:
         s = "%s#%s" % (r[0], r[1] if len(r) > 1 else "")
     for n, seg in enumerate(a.segs):
@@ -182,8 +182,14 @@ class AddrMap:
         if op == "call":
             if i["type"].endswith("*"):
                 c = i.get("callee")
-                if c and c[0] == "f" and (c[1] in ALLOCATORS or c[1] in self.fresh_fns):
+                if c and c[0] == "f" and c[1] in ALLOCATORS:
                     return Addr(("heap", i["id"]), (Seg(None, 0, None),))
+                if c and c[0] == "f" and c[1] in self.fresh_fns:
+                    # a library allocator: exact base or a pointer somewhere into the fresh block
+                    exact = self.fresh_fns[c[1]]
+                    # 'heapi' = an object placed somewhere inside the fresh block (aligned view);
+                    # only the exact base ('heap') may be handed to free().
+                    return Addr(("heap" if exact else "heapi", i["id"]), (Seg(None, 0, None),))
                 return Addr(("ret", i["id"]), (Seg(None, 0, None),))
             return None
         if op in ("phi", "select"):
